@@ -72,6 +72,7 @@ L_msg(ev) == ev.what = "msg" =>
                    /\ Get(phase, ev.obj, "none") = "connected"                               \* only that client's messages, only while connected
                    /\ Get(objAt, ev.a, 0) = ev.obj
                    /\ ev.tag = ev.a                                                          \* payload sent by the client that owns that address (driver tags payloads)
+L_once(ev) == ev.what = "msg" => ev.rep = 0                                                     \* C04/C10: a message is handed to the handler at most once, whatever the handler does with it
 L_disc(ev) == ev.what = "disconnect" => Get(phase, ev.obj, "none") = "connected"             \* disconnect exactly once, only after connect
 L_aftershutdown(ev) == shutdownSeen => FALSE                                                  \* shutdown is the last handler event
 \* the silence time-out: a disconnect of a client that did not say goodbye and was not kicked needs connection_timeout of silence
@@ -116,8 +117,8 @@ RawClauses ==
     IF ev.ev = "rx" THEN {c \in {"A_blocked", "A_queued"} : ~CASE c = "A_blocked" -> A_blocked(ev) [] c = "A_queued" -> A_queued(ev)}
     ELSE IF ev.ev = "tx" THEN {c \in {"A_noamplify", "A_notblocked", "A_sealed"} : ~CASE c = "A_noamplify" -> A_noamplify(ev) [] c = "A_notblocked" -> A_notblocked(ev) [] c = "A_sealed" -> A_sealed(ev)}
     ELSE IF ev.ev = "h" THEN
-      {c \in {"L_thread", "L_connect", "L_msg", "L_disc", "L_aftershutdown", "T_srvdrop"} :
-         ~CASE c = "L_thread" -> L_thread(ev) [] c = "L_connect" -> L_connect(ev) [] c = "L_msg" -> L_msg(ev) [] c = "L_disc" -> L_disc(ev)
+      {c \in {"L_thread", "L_connect", "L_msg", "L_once", "L_disc", "L_aftershutdown", "T_srvdrop"} :
+         ~CASE c = "L_thread" -> L_thread(ev) [] c = "L_connect" -> L_connect(ev) [] c = "L_msg" -> L_msg(ev) [] c = "L_once" -> L_once(ev) [] c = "L_disc" -> L_disc(ev)
             [] c = "L_aftershutdown" -> L_aftershutdown(ev) [] c = "T_srvdrop" -> T_srvdrop(ev)}
     ELSE IF ev.ev = "tick" THEN
       {c \in {"A_alive", "L_pools", "T_srvdrops", "T_srvcadence", "T_clidrops", "A_echo", "T_tempdrop", "T_clicadence", "T_connfails"} :
